@@ -648,6 +648,9 @@ func subDebugDialer() mon.Sub {
 			body := ""
 			if kind == 4 {
 				body = strings.Repeat("error body ", c.Rng.Intn(20))
+				if c.Rng.Intn(3) == 0 {
+					body = strings.Repeat("a longer error page. ", 30+c.Rng.Intn(300)) // beyond the usual buffer sizes
+				}
 			}
 			seed := c.Rng.Int63()
 			cut := -1
@@ -721,9 +724,26 @@ func subDebugDialer() mon.Sub {
 			plans := xport.Plans(c.Rng.Int63(), nil)
 			plan := plans[c.I%len(plans)]
 			var cur net.Conn // the connection the next NetDial call hands out
+			// half of the cases: the application looks at rejections itself (OnStatusError reads the response the
+			// dialer hands it to the end) and at every response header (OnHeader); what they see is part of the outcome
+			withCallbacks := c.I/8%2 == 0
+			var seen []string
 			mkDialer := func(conn net.Conn) ws.Dialer {
 				cur = conn
-				return ws.Dialer{ReadBufferSize: rb, Protocols: protos, TLSConfig: &tls.Config{InsecureSkipVerify: true}, NetDial: func(ctx context.Context, n, a string) (net.Conn, error) { return cur, nil }}
+				d := ws.Dialer{ReadBufferSize: rb, Protocols: protos, TLSConfig: &tls.Config{InsecureSkipVerify: true}, NetDial: func(ctx context.Context, n, a string) (net.Conn, error) { return cur, nil }}
+				if withCallbacks {
+					d.OnStatusError = func(status int, reason []byte, resp io.Reader) {
+						why := string(reason) // (taken first: reading resp refills the buffer the reason points into)
+						b, err := io.ReadAll(resp)
+						b = acceptRe.ReplaceAll(b, []byte("Sec-WebSocket-Accept: <per-dial>")) // (follows the nonce of each dial)
+						seen = append(seen, fmt.Sprintf("status-error %d %q: %d bytes fnv=%08x err=%v", status, why, len(b), fnv32(b), err))
+					}
+					d.OnHeader = func(k, v []byte) error {
+						seen = append(seen, fmt.Sprintf("header %s=%d bytes", k, len(v)))
+						return nil
+					}
+				}
+				return d
 			}
 			// reference: plain dialer
 			conn0 := mkConn(plan)
@@ -731,6 +751,7 @@ func subDebugDialer() mon.Sub {
 			if nc0 != nil {
 				nc0.Close()
 			}
+			seen0 := strings.Join(seen, "; ")
 			if jc, ok := conn0.(*joinConn); ok {
 				jc.Close()
 				<-jc.done
@@ -757,7 +778,8 @@ func subDebugDialer() mon.Sub {
 					conn := mkConn(plan)
 					cur = conn
 					gotReq, gotResp, reqCalls, respCalls, wrapCalls = nil, nil, 0, 0, 0
-					det := map[string]interface{}{"choice": choice, "kind": kind, "plan": plan.String(), "mode": mode, "dial_number_on_this_DebugDialer": round + 1, "user_wrapconn": userWrap, "tls": useTLS, "read_buf": rb, "trailing": len(tr), "cut": cut, "err_plain": fmt.Sprint(err0)}
+					seen = nil
+					det := map[string]interface{}{"callbacks": withCallbacks, "choice": choice, "kind": kind, "plan": plan.String(), "mode": mode, "dial_number_on_this_DebugDialer": round + 1, "user_wrapconn": userWrap, "tls": useTLS, "read_buf": rb, "trailing": len(tr), "cut": cut, "err_plain": fmt.Sprint(err0)}
 					sigKind := []string{"valid", "valid", "valid", "valid", "non101", "invalid101", "lf-only", "truncated"}[kind]
 					if round > 0 {
 						sigKind += "/redial"
@@ -787,6 +809,11 @@ func subDebugDialer() mon.Sub {
 					det["err_debug"] = fmt.Sprint(err)
 					if fmt.Sprint(err) != fmt.Sprint(err0) || hs.Protocol != hs0.Protocol || fmt.Sprint(hs.Extensions) != fmt.Sprint(hs0.Extensions) {
 						c.Fail("debug-dialer/outcome/"+sigKind, "DebugDialer changes the outcome or the handshake data", det)
+						return
+					}
+					if got := strings.Join(seen, "; "); got != seen0 {
+						det["callbacks_plain"], det["callbacks_debug"] = seen0, got
+						c.Fail("debug-dialer/callbacks/"+sigKind, "the dialer's OnStatusError / OnHeader callbacks see something else through the DebugDialer than through the plain dialer", det)
 						return
 					}
 					if mode&1 != 0 && (reqCalls != 1 || !bytes.Equal(gotReq, reqSeen)) {
@@ -830,6 +857,16 @@ func subDebugDialer() mon.Sub {
 			c.Sample(map[string]interface{}{"kind": kind, "choice": choice, "outcome": fmt.Sprint(err0), "trailing": len(tr)})
 		},
 	}
+}
+
+var acceptRe = regexp.MustCompile(`(?i)Sec-WebSocket-Accept:[^\r\n]*`)
+
+func fnv32(p []byte) uint32 {
+	h := uint32(2166136261)
+	for _, b := range p {
+		h = (h ^ uint32(b)) * 16777619
+	}
+	return h
 }
 
 // joinConn is the client end of an in-memory connection to a TLS server goroutine.
